@@ -4,23 +4,23 @@ import "verif/instr"
 
 // Spec describes how one property's check is bound to the repository.
 type Spec struct {
-	ID             string
-	Pkg            string       // repo-relative package that receives the harness test files
-	Harness        string       // directory under /verif/harness
-	Libs           []string     // shared harness library directories copied into the package
-	HideTests      []string     // extra package dirs whose own *_test.go files are hidden
-	Instr          []instr.Spec // packages rewritten for the controlled runtime
-	Test           string       // test function name
-	Shards         int
-	ThoroughShards int
-	QuickBudget    int // seconds of internal budget per shard
-	ThoroughBudget int
-	Grace          int // seconds added to the process timeout beyond the budget
-	GoMaxProcs     int
-	Env            []string
-	Level          string
-	Assumptions    []string
-	RaceBuild      bool
+	ID                 string
+	Pkg                string       // repo-relative package that receives the harness test files
+	Harness            string       // directory under /verif/harness
+	Libs               []string     // shared harness library directories copied into the package
+	HideTests          []string     // extra package dirs whose own *_test.go files are hidden
+	Instr              []instr.Spec // packages rewritten for the controlled runtime
+	Test               string       // test function name
+	Shards             int
+	ThoroughShards     int
+	QuickBudget        int // seconds of internal budget per shard
+	ThoroughBudget     int
+	Grace              int // seconds added to the process timeout beyond the budget
+	GoMaxProcs         int
+	Env                []string
+	Level              string
+	Assumptions        []string
+	RaceBuild          bool
 	NoReplayValidation bool
 }
 
@@ -33,12 +33,23 @@ func specs() []Spec {
 		{
 			ID: "C20", Pkg: "pkg/cache", Harness: "C20", Test: "TestVerif_C20",
 			Instr:  []instr.Spec{full("pkg/cache")},
-			Shards: 16, QuickBudget: 60, ThoroughBudget: 600, Grace: 120, GoMaxProcs: 2,
+			Shards: 16, QuickBudget: 60, ThoroughBudget: 600, Grace: 120, GoMaxProcs: 1, Env: []string{"GOGC=400"},
 			Level: "model_checking",
 			Assumptions: []string{
 				"the schedule explorer interleaves at synchronisation operations (locks, atomics, channel ops, spawn); unsynchronised accesses are covered by the happens-before race monitor over instrumented field/map accesses of pkg/cache",
 				"virtual clock replaces time.Now/NewTicker in pkg/cache; real-time behaviour of the Go runtime timers is not modelled",
 				"values are strings of length 1..9; estimateSize for other value kinds is not exercised",
+			},
+		},
+		{
+			ID: "C11", Pkg: "cmd/glyph", Harness: "C11", Test: "TestVerif_C11",
+			Instr:  []instr.Spec{full("pkg/server")},
+			Shards: 16, QuickBudget: 60, ThoroughBudget: 900, Grace: 120, GoMaxProcs: 1, Env: []string{"GOGC=400"},
+			Level: "model_checking",
+			Assumptions: []string{
+				"virtual clock replaces time.Now/NewTicker in pkg/server; the caller's clock of the property is that virtual clock",
+				"advances that span more than 3 cleanup ticks fire the first 2 and the last due tick only (the cleanup handler only deletes entries that are stale at the tick instant, which is monotone in time while no request intervenes)",
+				"client identity = RemoteAddr host; requests are built with httptest and handed to the middleware chain directly (no TCP)",
 			},
 		},
 	}
